@@ -802,3 +802,22 @@ def classify_result(value: Optional[ast.AST]) -> str:
         ka, kb = classify_result(value.body), classify_result(value.orelse)
         return ka if ka == kb else "mixed"
     return "delegate"
+
+
+def paths_of_block(stmts: Sequence[ast.stmt], init_env: Optional[Dict[str, ast.AST]] = None) -> List[Path]:
+    """Paths through a statement list taken in isolation (e.g. one loop iteration): every name that is
+    not assigned inside the block stays opaque, so 'derives from the previous value of x' is visible as
+    a mention of the name x."""
+    fn = ast.FunctionDef(
+        name="$block",
+        args=ast.arguments(posonlyargs=[], args=[], vararg=None, kwonlyargs=[], kw_defaults=[], kwarg=None, defaults=[]),
+        body=list(stmts), decorator_list=[], returns=None, type_comment=None,
+    )
+    fn.lineno = getattr(stmts[0], "lineno", 0) if stmts else 0
+    return PathEnumerator(fn, init_env).run()
+
+
+def mentions(e: Optional[ast.AST], name: str) -> bool:
+    if e is None:
+        return False
+    return any(isinstance(n, ast.Name) and n.id == name for n in ast.walk(e))
